@@ -47,11 +47,18 @@ impl RawValue {
     }
 
     pub fn get_value(&self) -> JValue {
+        self.try_get_value()
+            .expect("raw values of a verified CID store are valid JSON")
+    }
+
+    /// Parses the raw value, a value that came from untrusted data may be not a valid JSON.
+    pub fn try_get_value(&self) -> Result<JValue, serde_json::Error> {
         let mut parsed_guard = self.parsed.borrow_mut();
 
-        let parsed_value = parsed_guard
-            .get_or_insert_with(|| serde_json::from_str(&self.raw).expect("TODO handle error"));
-        parsed_value.clone()
+        if parsed_guard.is_none() {
+            *parsed_guard = Some(serde_json::from_str(&self.raw)?);
+        }
+        Ok(parsed_guard.clone().expect("was set above"))
     }
 
     pub(crate) fn as_inner(&self) -> &str {
